@@ -211,6 +211,64 @@ def showResp : Resp → String
   | .statuses sts => "st" ++ String.join (sts.map fun b => if b then " 1" else " 0")
   | .matched b => if b then "matched 1" else "matched 0"
   | .row r => "row " ++ showRow r
-  | .keyList ks => s!"keys {ks.length}" ++ String.join (ks.map fun k => " " ++ Bytes.toHex k)
+  | .keyList ks => s!"keys {ks.length}" ++ String.join (ks.map fun (k, n) => s!" {Bytes.toHex k}:{n}")
+
+/-! ### Pure judges (no Model state): the decoder and the `SampleRowKeys` relation
+
+    judge decode <m> (<n> (<key|-> <fam|-> <qual|-> <ts> <value> <labels…> <c|r|->)*n)*m
+    judge sample <n> (<key> <size>)*n <k> (<key> <offset>)*k
+-/
+
+def pDashBytes : P (Option Bytes) := do
+  let t ← tok
+  if t == "-" then pure none else
+  match Bytes.ofHex t with
+  | some b => pure (some b)
+  | none => fail
+
+/-- a chunk and whether it carries `reset_row` -/
+def pChunk : P (Chunk × Bool) := do
+  let k ← pDashBytes
+  let f ← pDashBytes
+  let q ← pDashBytes
+  let ts ← pInt
+  let v ← pBytes
+  let ls ← pList pBytes
+  let fl ← tok
+  match fl with
+  | "c" => pure (⟨k, f, q, ts, v, ls, true⟩, false)
+  | "r" => pure (⟨k, f, q, ts, v, ls, false⟩, true)
+  | "-" => pure (⟨k, f, q, ts, v, ls, false⟩, false)
+  | _ => fail
+
+def showDRow (r : DRow) : String :=
+  Bytes.toHex r.1 ++ String.join (r.2.map fun (f, q, c) =>
+    s!" {Bytes.toHex f}/{Bytes.toHex q}@{c.ts}={Bytes.toHex c.value}#{showLabels c.labels}")
+
+def judgeDecode (msgs : List (List (Chunk × Bool))) : String :=
+  if msgs.any (·.isEmpty) then "malformed"
+  else if msgs.any (·.any (·.2)) then "malformed"
+  else match decode (msgs.flatMap (·.map (·.1))) with
+    | none => "malformed"
+    | some rows => s!"decoded {rows.length}" ++ String.join (rows.map fun r => " | " ++ showDRow r)
+
+def handleJudge (rest : List String) : String :=
+  match rest with
+  | "decode" :: r =>
+    match (do let ms ← pList (pList pChunk); atEnd; pure ms : P _).run r with
+    | some (ms, _) => judgeDecode ms
+    | none => "bad-op"
+  | "sample" :: r =>
+    match (do
+        let rows ← pList (do let k ← pBytes; let n ← pNat; pure (k, n))
+        let out ← pList (do let k ← pBytes; let n ← pNat; pure (k, n))
+        atEnd
+        pure (rows, out) : P _).run r with
+    | some ((rows, out), _) =>
+      -- a row of the given size: one cell whose value has that length
+      let mk : Bytes × Nat → Row := fun (k, n) => ⟨k, [⟨[], [⟨[], [⟨0, List.replicate n 0, []⟩]⟩]⟩]⟩
+      if sampleExplained (rows.map mk) out then "explained" else "unexplained"
+    | none => "bad-op"
+  | _ => "bad-op"
 
 end Emu.Driver
